@@ -25,6 +25,14 @@ def run_one(patch):
     if re.search(r"#\s*expect-silent:\s*ALL", head):
         return run_all_silent(patch)
     m = re.search(r"#\s*expect:\s*(C\d+)\s+(.*)", head)
+    metap = os.path.join(os.path.dirname(patch), "meta.json")
+    if not m and not silent and os.path.basename(patch) == "patch.diff" and os.path.exists(metap):
+        # a seeded change: the expectation is what meta.json recorded (bin/seedcheck.py --record)
+        import json
+        db = json.load(open(metap)).get("detected_by") or {}
+        want = AS_PROP if AS_PROP in db else (sorted(db)[0] if db else None)
+        if want and db[want]:
+            m = re.match(r"(C\d+)\s+(.*)", "%s %s" % (want, db[want][0]))
     if not m and not silent:
         return (patch, False, "no '# expect:' header")
     if silent:
